@@ -544,7 +544,7 @@ func TestCheck(t *testing.T) {
 		"distinct = distinct (workload, header selector, label count, SvcParam subset | name length, OPT situation) classes whose message reached the codec")
 	r.Assume("golang.org/x/net/dns/dnsmessage v0.42.0 as conforming RFC 1035 codec (parser and compressing builder)",
 		"the harness' own RFC 1035 uncompressed encoder/walker and RFC 9460 SvcParam codec (internal/dnsx), cross-checked against dnsmessage in every decode case",
-		"names are compared as label sequences; labels never contain '.'")
+		"names are compared as label sequences; the generated labels never contain '.' (workload dotted: hand-assembled names whose labels do)")
 
 	// -- encode direction --
 	nEnc := r.N(10000, 600000)
@@ -805,6 +805,7 @@ func TestCheck(t *testing.T) {
 
 	// -- pointer chains (hand-assembled packets, see chains_test.go) --
 	runChains(r)
+	runDotted(r)
 
 	// -- AddPadding --
 	const modes = 8
